@@ -481,6 +481,12 @@ def run_ppartition(case):
         if op == "flatten" and spec["axis"] is None and unordered_flatten and isinstance(ev, list) and isinstance(vv, list):
             # the order in which ak.flatten(axis=None) lists the fields of records / the contents of unions is not specified
             ev, vv = sorted(ev, key=repr), sorted(vv, key=repr)
+        if op == "type":
+            # the type string of a partitioned array after merging pieces is a matter of merge (regular dimensions become var, unions are
+            # not simplified), not of the value the statement speaks about: both twins must answer, the strings are not compared
+            tags.append("ptype_not_compared")
+            compared += 1
+            continue
         if not M.same_value(ev, vv):
             raise Violation("value:q%s" % op, "%s differs between the partitioned and the concatenated array" % op, expected=M.jsonable(ev), observed=M.jsonable(vv))
         compared += 1
